@@ -47,8 +47,8 @@ META = {
 VARS = ["a", "b", "c", "d", "e"]
 # identifier spellings (the parser looks at the spelling: std::isupper in the sizeof and Name<T> heuristics; and at
 # the declarations: the cast look-ahead).  The model's identifier classes are id_upper / id_type (Model.v).
-LOWER_FANCY = ["x_1", "_y", "aB", "i18n", "int_x", "sizeofx", "newt", "n0"]          # lower-case initial, no type
-UPPER = ["N", "M", "LIMIT", "Nx", "B2", "X_1", "Zz"]                                   # upper-case initial, no type
+LOWER_FANCY = ["x_1", "_y", "aB", "i18n", "int_x", "sizeofx", "newt", "n0", "cnt_t", "x_", "_Z", "__v"]   # no upper-case initial, no type
+UPPER = ["N", "M", "LIMIT", "Nx", "B2", "X_1", "Zz", "T", "T1", "MAX_LEN"]              # upper-case initial, no type
 TYPE_NAMES = ["Point", "node", "Len", "len_t", "Color", "mode", "Shape"]               # declared by PRELUDE (= ocaml/c02_driver.ml type_names)
 KW_TYPES = ["int", "long", "short", "tiny", "float", "double", "bool", "string", "char", "void"]
 # every harness program starts with these declarations: two structs, two typedefs, two enums, an interface
@@ -57,6 +57,7 @@ PRELUDE = ("struct Point { int x; int y; };\nstruct node { int v; };\ntypedef in
 BINOPS = ["||", "&&", "|", "^", "&", "==", "!=", "<", "<=", ">", ">=", "<<", ">>", "+", "-", "*", "/", "%"]
 UNOPS = ["!", "-", "~"]
 UNOPS_PTR = ["&", "*"]
+UNOPS_KW = ["await", "try", "checked"]      # keyword prefix operators of parseUnary (BNF unary_expression); AST level only
 ASGOPS = ["=", "+=", "-=", "*=", "/=", "%=", "&=", "|=", "^=", "<<=", ">>="]
 CTX = ") ;"
 
@@ -84,6 +85,8 @@ def sx(t):
         return "(MC %s %s %s%s)" % (t[1], sx(t[2]), t[3], "".join(" " + sx(a) for a in t[4]))
     if k == "K":       # ("K", "int**", operand): cast to a keyword type
         return "(K %s %s)" % (t[1], sx(t[2]))
+    if k == "AL":      # ("AL", [elements]): array literal
+        return "(AL%s)" % "".join(" " + sx(a) for a in t[1])
     if k == "T":
         return "(T %s %s %s)" % (sx(t[1]), sx(t[2]), sx(t[3]))
     if k == "S":
@@ -134,6 +137,11 @@ def unsx(s):
         elif k == "K":
             ty = toks[pos[0]]; pos[0] += 1
             v = ("K", ty, one())
+        elif k == "AL":
+            args = []
+            while toks[pos[0]] != ")":
+                args.append(one())
+            v = ("AL", args)
         elif k == "T":
             v = ("T", one(), one(), one())
         elif k == "S":
@@ -168,7 +176,7 @@ def children(t):
     return []
 
 
-ARGS_AT = {"C": 2, "MC": 4}      # index of the argument list of a call node
+ARGS_AT = {"C": 2, "MC": 4, "AL": 1}      # index of the argument / element list of a node
 
 
 def args_of(t):
@@ -258,7 +266,7 @@ def rand_tree(rng, depth, kinds, leaf_num=0.35, fancy=0.0):
             return ("N", rng.choice([0, 1, 2, 3, 5, 7, 10]))
         return ("V", rand_ident(rng, fancy))
     opts = [("bin", 10), ("un", 3), ("ptr", 1), ("incdec", 2), ("idx", 2), ("mem", 1), ("call", 1.5), ("mcall", 1), ("cast", 1),
-            ("sizeof", 0.4), ("tern", 2), ("asg", 1.5), ("par", 2)]
+            ("sizeof", 0.4), ("arr", 0.5), ("tern", 2), ("asg", 1.5), ("par", 2)]
     opts = [(k, w) for k, w in opts if k in kinds]
     k = rng.choices([o[0] for o in opts], [o[1] for o in opts])[0]
     sub = lambda: rand_tree(rng, depth - 1, kinds, leaf_num, fancy)   # noqa: E731
@@ -267,7 +275,7 @@ def rand_tree(rng, depth, kinds, leaf_num=0.35, fancy=0.0):
     if k == "un":
         return ("U", rng.choice(UNOPS), sub())
     if k == "ptr":
-        return ("U", rng.choice(UNOPS_PTR), sub())
+        return ("U", rng.choice(UNOPS_PTR + UNOPS_KW), sub())
     if k == "incdec":
         return (rng.choice(["PRE", "POST"]), rng.choice(["++", "--"]), sub())
     if k == "idx":
@@ -282,6 +290,8 @@ def rand_tree(rng, depth, kinds, leaf_num=0.35, fancy=0.0):
         return ("K", rng.choice(["int", "int", "long", "int*", "char", "double", "bool", "void*", "short**", "tiny", "float", "string"]), sub())
     if k == "sizeof":
         return ("C", "sizeof", [sub()])
+    if k == "arr":
+        return ("AL", [sub() for _ in range(rng.choice([0, 1, 2, 2, 3]))])
     if k == "tern":
         return ("T", sub(), sub(), sub())
     if k == "asg":
@@ -484,7 +494,7 @@ def nesting_cases():
     a, b, c, d, e = [("V", x) for x in VARS]
     out = []
     for o in BINOPS:
-        for u in UNOPS + UNOPS_PTR:
+        for u in UNOPS + UNOPS_PTR + UNOPS_KW:
             out += [("U", u, ("B", o, a, b)), ("B", o, ("U", u, a), b), ("B", o, a, ("U", u, b))]
         for pd in ("++", "--"):
             out += [("B", o, ("POST", pd, a), b), ("B", o, a, ("PRE", pd, b)), ("B", o, ("PRE", pd, a), ("POST", pd, b))]
@@ -494,9 +504,11 @@ def nesting_cases():
                 ("B", o, ("T", a, b, c), d), ("B", o, a, ("T", b, c, d))]
         for s in ASGOPS:
             out += [("S", s, a, ("B", o, b, c)), ("B", o, ("S", s, a, b), c), ("B", o, a, ("S", s, b, c))]
-    for u in UNOPS + UNOPS_PTR:
-        for v in UNOPS + UNOPS_PTR:
+    for u in UNOPS + UNOPS_PTR + UNOPS_KW:
+        for v in UNOPS + UNOPS_PTR + UNOPS_KW:
             out.append(("U", u, ("U", v, a)))
+        out += [("U", u, ("K", "int", a)), ("K", "int", ("U", u, a)), ("U", u, ("MC", ".", a, "get", [b])), ("U", u, ("AL", [a, b])),
+                ("U", u, ("C", "sizeof", [a])), ("B", "*", ("K", "long", ("U", u, a)), b)]
         out += [("U", u, ("I", a, b)), ("I", ("U", u, a), b), ("U", u, ("POST", "++", a)), ("POST", "--", ("U", u, a)),
                 ("U", u, ("PRE", "++", a)), ("PRE", "--", ("U", u, a)), ("U", u, ("M", a, "m")), ("M", ("U", u, a), "m"),
                 ("U", u, ("C", "f", [a])), ("U", u, ("T", a, b, c)), ("T", ("U", u, a), b, c), ("U", u, ("S", "=", a, b))]
@@ -532,10 +544,18 @@ def lookahead_cases():
             out.append(("B", ">", ("B", "<", ("M", a, "m"), m), r))
             out.append(("B", "&&", ("B", "<", a, m), ("B", ">", b, r)))
             out.append(("C", "f", [("B", "<", a, m), ("B", ">", b, r)]))
+    # the Name<T> heuristic (C02-upper-ident-lt): the same shapes with an upper-case left operand - the skip over
+    # `< ... >` accepts identifiers , * [ ] numbers and keyword types only; model and parser must agree on all of them
+    big = ("V", "N")
+    for m in mids:
+        for r in rights[:3]:
+            out.append(("B", ">", ("B", "<", big, m), r))
+            out.append(("B", "-", ("B", ">", ("B", "<", big, m), ("U", "-", ("N", 1))), c))
+            out.append(("C", "f", [("B", "<", big, m), ("B", ">", b, r)]))
     return out
 
 
-IDENT_SPECS = ["a", "x_1", "_y", "sizeofx", "N", "LIMIT", "B2", "Zz", "Point", "len_t", "Color", "mode"]
+IDENT_SPECS = ["a", "x_1", "_y", "sizeofx", "cnt_t", "_Z", "N", "LIMIT", "B2", "Zz", "T", "Point", "len_t", "Color", "mode"]
 
 
 def ident_cases():
@@ -861,7 +881,7 @@ def tree_disagrees(impl_dir, trees):
     res = []
     for t, m, p_, i in zip(trees, mt, mp, im):
         v = model_verdict(p_)
-        if v == "SKIP" or v == i or (v == "ERR" and "ARRAY_LITERAL" in str(i)):
+        if v == "SKIP" or v == i:
             res.append(None)
         else:
             res.append({"text": m["text"], "model": p_, "impl": i, "wf": m["wf"], "safe": m["safe"], "rt": m["rt"]})
@@ -1057,7 +1077,7 @@ def run(rep):
         for t in triple_cases():
             trees.append(t); origin.append("triple-min")
     n_rand = 4000 if quick else 60000
-    all_kinds = {"bin", "un", "ptr", "incdec", "idx", "mem", "call", "mcall", "cast", "sizeof", "tern", "asg", "par"}
+    all_kinds = {"bin", "un", "ptr", "incdec", "idx", "mem", "call", "mcall", "cast", "sizeof", "arr", "tern", "asg", "par"}
     for k in range(n_rand):
         rng = rng_for(seed, "c02-tree", k)
         depth = rng.choice([2, 3, 4, 5] if quick else [3, 4, 5, 6])
@@ -1096,9 +1116,6 @@ def run(rep):
             if any(x in m["text"] for x in BINOPS + ["?", "=", "++", "--", "[", "."]):
                 nontrivial.add(m["text"])
         if v != i:
-            if v == "ERR" and "ARRAY_LITERAL" in str(i):      # array literals are outside the modelled fragment
-                avoided["outside-fragment"] += 1
-                continue
             violations.append(("tree", t, {"origin": o, "text": m["text"], "model": p_, "impl": i, "safe": m["safe"]}))
     for k in (n_exh // 2, len(trees) - 7, len(trees) - 3):
         if 0 <= k < len(trees):
@@ -1170,9 +1187,6 @@ def run(rep):
         if s not in distinct:
             distinct.add(s); nontrivial.add(s)
         if v != i:
-            if v == "ERR" and "ARRAY_LITERAL" in str(i):
-                avoided["outside-fragment"] += 1
-                continue
             violations.append(("text", s, {"origin": "malformed", "text": s, "model": p_, "impl": i}))
     rep.coverage["malformed_accepted_by_both"] = mal_ok
     if mtexts:
@@ -1289,7 +1303,7 @@ def run(rep):
             continue
         x = rng.choice(free)
         if rng.random() < 0.3:
-            x = rng.choice(UPPER[:4] + LOWER_FANCY[:4])      # the modified variable under another spelling
+            x = rng.choice(UPPER + LOWER_FANCY)      # the modified variable under another spelling
         if rng.random() < 0.5:
             inc = (rng.choice(["PRE", "POST"]), rng.choice(["++", "--"]), ("V", x))
             # the value the operand contributes (for the definedness guard evaluated in the model)
@@ -1453,7 +1467,7 @@ def run(rep):
         "structs/typedefs/enums/interface every program declares) are generated in every position; modelled besides the operators: "
         "casts to keyword types and to declared types, sizeof, method calls, the Name<T> heuristic; outside the modelled fragment "
         "(skipped by the malformed stream): await/try/checked/new/delete, chained calls f(x)(y), calls through a parenthesised "
-        "callee, function types in casts, enum access T::m, array/struct literals, lambdas, string operands",
+        "callee, function types in casts, enum access T::m, struct literals, lambdas, string operands",
         "integer literals are small decimals in the model; bool / float / zero-padded spellings of the same value are tied in by "
         "an AST comparison (literal-spelling); the evaluation contexts initialiser / if / call argument / array index are "
         "compared with the model value of the expression",
